@@ -20,10 +20,11 @@ type Event struct {
 	Cond  ast.Expr      // a branch condition decided at this point
 	Taken bool          // for Cond: outcome
 	Case  *ast.CaseClause
-	Stmt  ast.Stmt // an assignment / other simple statement (for def-use rules)
-	Exit  string   // "return" | "panic" at the end of a path
-	Loop  int      // >0: entering iteration #Loop of a loop body; -1 leaving loop
-	Frag  ast.Stmt // an isolated loop (analysed separately)
+	Stmt  ast.Stmt       // an assignment / other simple statement (for def-use rules)
+	Exit  string         // "return" | "panic" at the end of a path
+	Loop  int            // >0: entering iteration #Loop of a loop body; -1 leaving loop
+	Range *ast.RangeStmt // with Loop > 0: the range statement whose iteration starts (exact trip counts only)
+	Frag  ast.Stmt       // an isolated loop (analysed separately)
 }
 
 type pathCfg struct {
@@ -362,7 +363,7 @@ func (c *pathCfg) stmt(s ast.Stmt, pts []*path) []*path {
 		lv = c.calls(s.X, lv)
 		if c.loopCount != nil {
 			if n, ok := c.loopCount(s); ok {
-				return append(dn, c.exact(lv, n, s.Body, nil)...)
+				return append(dn, c.exact(lv, n, s.Body, nil, s)...)
 			}
 		}
 		return append(dn, c.loop(lv, nil, s.Body, nil)...)
@@ -570,13 +571,17 @@ func (c *pathCfg) loop(in []*path, cond ast.Expr, body *ast.BlockStmt, post ast.
 }
 
 // exact runs a loop body exactly n times.
-func (c *pathCfg) exact(in []*path, n int, body *ast.BlockStmt, post ast.Stmt) []*path {
+func (c *pathCfg) exact(in []*path, n int, body *ast.BlockStmt, post ast.Stmt, rs ...*ast.RangeStmt) []*path {
+	var rng *ast.RangeStmt
+	if len(rs) > 0 {
+		rng = rs[0]
+	}
 	cur := in
 	var out []*path
 	for it := 0; it < n; it++ {
 		for _, pt := range cur {
 			if !pt.done {
-				pt.ev = append(pt.ev, Event{Loop: it + 1})
+				pt.ev = append(pt.ev, Event{Loop: it + 1, Range: rng})
 			}
 		}
 		cur = c.block(body.List, cur)
